@@ -1,6 +1,6 @@
 """C01: trash-put conserves data: each argument ends fully trashed or
 untouched."""
-from . import put, trashdirs, purge, scenarios
+from . import put, trashdirs, purge, scenarios, options
 
 PROPERTY = 'C01'
 
@@ -20,6 +20,11 @@ LEVEL_NOTE = ('typestate monitor over every path of Janitor.trash_file_in (all '
               'make_candidate_dirs, make_trashinfo_data; trash_file / '
               'trash_single compositions')
 EXPECTED = [
+    'put-options/mode-is-the-last-of-f-and-i',
+    'put-options/home-fallback-only-with-its-flag',
+    'put-options/trash-dir-is-the-last-trash-dir-value',
+    'put-options/files-are-the-operands-in-order',
+    'put-options/no-file-operand-is-a-usage-error-with-non-zero-exit',
     'trashcli.put.core.trashee.should_skipped_by_specs/post/dot-entries-in-every-spelling',
     'trashcli.fs.RealAtomicWrite.atomic_write/post/failure-leaves-no-file-behind',
     'trashcli.put.fs.real_fs.RealFs.move/post/fallback-only-after-EXDEV',
@@ -44,6 +49,7 @@ def build(S, tier, seed):
     put.trash_file_in_vc(S)
     put.trash_file_vc(S)
     put.trash_single_vc(S)
+    options.put_options_vc(S)
 
 
 def _battery(S, r, o):
